@@ -193,6 +193,7 @@ class AppendEffects(_Effects):
 
     def cases(self, tier):
         tables = [("none", None), ("upper", {"MYSTRUCT": {"a": [7, 8], "b": ["x y", "#z"], "c": [[1.0, 2.0], [3.0, 4.0]]}}),
+                  ("tabs", {"MYSTRUCT": {"a": [6, 5], "b": ["p\tq", ";{}"], "c": [[1.0, 2.0], [3.0, 4.0]]}}),
                   ("lower", {"mystruct": {"a": [9], "b": [""], "c": [[0.5, 0.25]]}}), ("other", {"OTHER": {"n": [1, 2]}})]
         pairs = [{}, {"gamma": "3"}, {"delta": "4 5", "eps": "x"}]
         return [(raw, t, tuple(sorted(p.items()))) for raw in (False, True) for t in tables for p in pairs]
@@ -332,6 +333,7 @@ class Histories:
             nfile = 0
             expected_rows = {"MYSTRUCT": 2, "OTHER": 1}
             expected_pairs = {"alpha": "1", "beta": "two words"}
+            expected_cells = []
             for op in seq:
                 before = _snapshot(par)
                 fname = par.filename
@@ -374,8 +376,9 @@ class Histories:
                         except ValueError:
                             refused = True
                     elif op == "append-rows-upper":
-                        par.append({"MYSTRUCT": {"a": [5], "b": ["u p"], "c": [[9.0, 8.0]]}})
-                        expected_rows["MYSTRUCT"] += 1
+                        par.append({"MYSTRUCT": {"a": [5, 6], "b": ["u p", "t\tb"], "c": [[9.0, 8.0], [7.0, 6.0]]}})
+                        expected_rows["MYSTRUCT"] += 2
+                        expected_cells.append("t\tb")
                     elif op == "append-rows-lower":
                         par.append({"other": {"n": [7, 8]}})
                         expected_rows["OTHER"] += 2
@@ -401,6 +404,9 @@ class Histories:
                     if not _same_data(after, fresh) or text != after["contents"]:
                         bad.append(("object_equals_fresh_read", "after %s" % op))
                 sizes = {t: len(next(iter(c.values()))) if c else 0 for t, c in after["tables"].items()}
+                bcol = [x.decode() if isinstance(x, bytes) else x for x in after["tables"]["MYSTRUCT"]["b"]]
+                if any(cell not in bcol for cell in expected_cells):
+                    bad.append(("logical_content", "after %s: appended cell values %r not all among %r" % (op, expected_cells, bcol)))
                 if sizes != expected_rows or after["pairs"] != expected_pairs:
                     bad.append(("logical_content", "after %s: rows %s pairs %s" % (op, sizes, sorted(after["pairs"]))))
         return bad
